@@ -203,7 +203,13 @@ class RemoteProxy(BaseProxy):
             await self._channel.close()
         except ConnectionError:
             pass
-        await self._reader_task
+        # If the simulator did not close the connection in time, the
+        # reader task will never see the end of the requests.
+        self._reader_task.cancel()
+        try:
+            await self._reader_task
+        except asyncio.CancelledError:
+            pass
 
 
 def extract_version(meta: Meta) -> List[int]:
